@@ -870,7 +870,7 @@ def readers_family(run, replay):
                 f.write(json.dumps(hdr["model_case"]) + "\n")
             vk.run_driver(run, ["split-replay", "--prop", "C02", "--cases", cp, "--out", p], p)
             r = vk.validate_trace(run, p, "TraceDocs.tla", cfg)
-        elif "-sweep-" in case:
+        elif "-sweep-" in case or "-struct-" in case:
             # a case of the systematic sweep: the whole sweep is re-run (a few seconds)
             vk.run_driver(run, ["readers", "--seed", "1", "--from", "0", "--to", "0", "--sweep", "--sweepmod", "1", "--sweepidx", "0", "--out", p], p, timeout=3000)
             r = vk.validate_trace(run, p, "TraceDocs.tla", cfg)
